@@ -426,6 +426,40 @@ func runC20(c *core.Ctx) {
 			}
 			allOf = mismatchFalse && trueAfter && !trueInside
 		}
+		// the kind compared per position is the presence-aware one: Maybe.Just(v).Kind() is Invalid for an absent value
+		// (untyped nil, nil pointer); the bare Kind(v) / reflect kind of a nil pointer is Ptr - a product type declared
+		// with reflect.Ptr would then accept a nil pointer, one declared with Invalid reject it
+		bareKind := ""
+		core.Instrs(f, func(ins ssa.Instruction) {
+			b, isB := ins.(*ssa.BinOp)
+			if !isB || (b.Op != token.EQL && b.Op != token.NEQ) {
+				return
+			}
+			for _, side := range []ssa.Value{b.X, b.Y} {
+				call, isC := core.Resolve(side).(*ssa.Call)
+				if !isC || call.Call.IsInvoke() {
+					continue
+				}
+				g := core.Callee(&call.Call)
+				std := core.StdCallee(&call.Call)
+				if !(g != nil && core.FuncName(g) == "fpgo.Kind") && std != "reflect.(Value).Kind" && std != "reflect.(Type).Kind" {
+					continue
+				}
+				guarded := false
+				for _, cnd := range core.EdgeFacts(b.Block()) {
+					nrm := core.Normalize(cnd)
+					if k, isK := nrm.V.(*ssa.Call); isK && !nrm.True {
+						if h := core.Callee(&k.Call); h != nil && core.FuncName(h) == "fpgo.IsNil" {
+							guarded = true
+						}
+					}
+				}
+				if !guarded {
+					bareKind = p.InstrPos(ins)
+				}
+			}
+		})
+		c.Check(bareKind == "", "R6", "ProductType.Matches/presence-aware-kind", p.Pos(f.Pos()), "the kind compared per position is not the bare reflect kind of a possibly absent value", "ProductType.Matches compares the declared kind with the bare kind of the value at "+bareKind+" (no absence test on the way): a nil pointer has the kind Ptr there but counts as absent (Invalid) everywhere else, so NewCompData accepts / rejects typed nil pointers differently from MatchFor and the other patterns")
 		c.Check(arity && allOf, "R6", "ProductType.Matches", p.Pos(f.Pos()), "arity test then conjunction over all positions", fmt.Sprintf("ProductType.Matches is not arity test (%v) plus all-of over the kinds (%v)", arity, allOf))
 	}
 }
